@@ -15,7 +15,7 @@ use rustrtc::transports::dtls::{Certificate, fingerprint, generate_certificate};
 use std::collections::VecDeque;
 
 #[derive(Clone, Debug, PartialEq)]
-pub enum Act { Drop, Dup, Swap, FlipBody(u16), CertOther, CertEmpty, CertGarbage, Resign, CertOtherResign, FlipSig, FlipKey, FlipRandom, StripExt(u16), FlipCipher, Fragment(u16), FragDupMid(u16), FragReorder(u16), SeqMinus1, Impostor, ImpostorChain, ExtraCert, RefragTailLost(u16), RefragEvery3(u16), PreInject(u8) }
+pub enum Act { Drop, Dup, Swap, FlipBody(u16), CertOther, CertEmpty, CertGarbage, Resign, CertOtherResign, FlipSig, FlipKey, FlipRandom, StripExt(u16), FlipCipher, Fragment(u16), FragDupMid(u16), FragReorder(u16), SeqMinus1, Impostor, ImpostorChain, ExtraCert, RefragTailLost(u16), RefragEvery3(u16), PreInject(u8), ForgeFinishedBad, InsertCert, RefragOverlap(u16) }
 
 #[derive(Clone, Debug, PartialEq)]
 pub struct Rule { pub from_client: bool, pub typ: u8, pub act: Act }
@@ -32,8 +32,8 @@ impl Script {
             Act::FlipRandom => "fliprandom".into(), Act::StripExt(e) => format!("strip{e}"), Act::FlipCipher => "flipcipher".into(),
             Act::Fragment(n) => format!("frag{n}"), Act::FragDupMid(n) => format!("fragdup{n}"), Act::FragReorder(n) => format!("fragreorder{n}"),
             Act::SeqMinus1 => "seqminus1".into(), Act::Impostor => "impostor".into(), Act::ImpostorChain => "impostorchain".into(),
-            Act::ExtraCert => "extracert".into(), Act::RefragTailLost(n) => format!("refragtaillost{n}"), Act::RefragEvery3(n) => format!("refragevery{n}"),
-            Act::PreInject(ct) => format!("preinject{ct}") })).collect();
+            Act::ExtraCert => "extracert".into(), Act::RefragTailLost(n) => format!("refragtaillost{n}"), Act::RefragEvery3(n) => format!("refragevery{n}"), Act::RefragOverlap(n) => format!("refragoverlap{n}"),
+            Act::PreInject(ct) => format!("preinject{ct}"), Act::ForgeFinishedBad => "forgefinishedbad".into(), Act::InsertCert => "insertcert".into() })).collect();
         format!("ce={} se={} {}", self.ce, self.se, if rs.is_empty() { "-".into() } else { rs.join(";") })
     }
     pub fn parse(s: &str) -> Script {
@@ -47,10 +47,10 @@ impl Script {
             let num = |pre: &str| a[pre.len()..].parse::<u16>().unwrap();
             let act = match a { "drop" => Act::Drop, "dup" => Act::Dup, "swap" => Act::Swap, "other" => Act::CertOther, "empty" => Act::CertEmpty,
                 "garbage" => Act::CertGarbage, "resign" => Act::Resign, "otherresign" => Act::CertOtherResign, "flipsig" => Act::FlipSig,
-                "flipkey" => Act::FlipKey, "fliprandom" => Act::FlipRandom, "flipcipher" => Act::FlipCipher, "seqminus1" => Act::SeqMinus1, "impostor" => Act::Impostor, "impostorchain" => Act::ImpostorChain, "extracert" => Act::ExtraCert,
+                "flipkey" => Act::FlipKey, "fliprandom" => Act::FlipRandom, "flipcipher" => Act::FlipCipher, "seqminus1" => Act::SeqMinus1, "forgefinishedbad" => Act::ForgeFinishedBad, "insertcert" => Act::InsertCert, "impostor" => Act::Impostor, "impostorchain" => Act::ImpostorChain, "extracert" => Act::ExtraCert,
                 x if x.starts_with("flipbody") => Act::FlipBody(num("flipbody")), x if x.starts_with("strip") => Act::StripExt(num("strip")),
                 x if x.starts_with("preinject") => Act::PreInject(num("preinject") as u8),
-                x if x.starts_with("refragtaillost") => Act::RefragTailLost(num("refragtaillost")), x if x.starts_with("refragevery") => Act::RefragEvery3(num("refragevery")),
+                x if x.starts_with("refragtaillost") => Act::RefragTailLost(num("refragtaillost")), x if x.starts_with("refragevery") => Act::RefragEvery3(num("refragevery")), x if x.starts_with("refragoverlap") => Act::RefragOverlap(num("refragoverlap")),
                 x if x.starts_with("fragdup") => Act::FragDupMid(num("fragdup")), x if x.starts_with("fragreorder") => Act::FragReorder(num("fragreorder")),
                 x if x.starts_with("frag") => Act::Fragment(num("frag")), x => panic!("bad act {x}") };
             rules.push(Rule { from_client: p[0] == "c>s", typ: p[1].parse().unwrap(), act });
@@ -70,12 +70,27 @@ fn kind(dg: &[u8]) -> u8 {
     }
 }
 
+/// ChangeCipherSpec / Finished datagrams do not say who sent them; the client's ChangeCipherSpec is record
+/// sequence number 2 and its Finished follows a 3-record epoch-0 history, the server's are 4 / after 5 records —
+/// the record sequence number of the ChangeCipherSpec tells, and `run_script` passes Finished through `DIR_HINT`.
+fn from_client_hint(dg: &[u8]) -> bool {
+    match parse_records(dg).first() { Some(r) if r.ctype == 20 => r.seq <= 3, _ => DIR_HINT.with(|d| d.get()) }
+}
+thread_local! { static DIR_HINT: std::cell::Cell<bool> = const { std::cell::Cell::new(false) }; }
+
 fn rebuild(dg: &[u8], f: impl FnOnce(&mut Vec<u8>)) -> Vec<u8> {
     let r = &parse_records(dg)[0];
     let m = &parse_hs(&r.body)[0];
     let mut body = m.body.clone();
     f(&mut body);
     record_bytes(22, (r.vmaj, r.vmin), r.epoch, r.seq, &hs_bytes(m.typ, body.len() as u32, m.seq, 0, &body))
+}
+
+fn cert_body(certs: &[Vec<u8>]) -> Vec<u8> {
+    let mut b = vec![]; let tot: usize = certs.iter().map(|c| c.len() + 3).sum();
+    b.extend_from_slice(&(tot as u32).to_be_bytes()[1..]);
+    for c in certs { b.extend_from_slice(&(c.len() as u32).to_be_bytes()[1..]); b.extend_from_slice(c); }
+    b
 }
 
 pub struct Attacker { pub cert: Certificate, pub key: p256::ecdsa::SigningKey }
@@ -91,8 +106,6 @@ impl Attacker {
 /// `occ`: how many datagrams of this kind the rule has already seen (persistent re-fragmentation rules
 /// apply to every retransmission, with a different split each time)
 fn apply(act: &Act, dg: &[u8], atk: &Attacker, randoms: &(Vec<u8>, Vec<u8>), occ: usize) -> Vec<Vec<u8>> {
-    let cert_body = |certs: &[Vec<u8>]| { let mut b = vec![]; let tot: usize = certs.iter().map(|c| c.len() + 3).sum();
-        b.extend_from_slice(&(tot as u32).to_be_bytes()[1..]); for c in certs { b.extend_from_slice(&(c.len() as u32).to_be_bytes()[1..]); b.extend_from_slice(c); } b };
     let resign = |body: &mut Vec<u8>| {
         // ServerKeyExchange: curve_type(1) named_curve(2) len(1) pubkey, hash(1) sig(1) siglen(2) sig
         let pl = body[3] as usize;
@@ -127,7 +140,14 @@ fn apply(act: &Act, dg: &[u8], atk: &Attacker, randoms: &(Vec<u8>, Vec<u8>), occ
                 b.truncate(i); b.extend_from_slice(&(out.len() as u16).to_be_bytes()); b.extend_from_slice(&out);
             } })],
         Act::FlipCipher => { let mut d = dg.to_vec(); let n = d.len(); d[n - 20] ^= 1; vec![d] }
-        Act::Impostor | Act::ImpostorChain | Act::ExtraCert => vec![dg.to_vec()],
+        Act::Impostor | Act::ImpostorChain | Act::ExtraCert | Act::ForgeFinishedBad => vec![dg.to_vec()],
+        Act::InsertCert => {
+            // a second Certificate message (the attacker's certificate), in sequence right after the genuine one;
+            // the proxy renumbers the rest of the flight (see `seq_shift`)
+            let r = &parse_records(dg)[0]; let m = &parse_hs(&r.body)[0];
+            let body = cert_body(&atk.cert.certificate);
+            vec![dg.to_vec(), record_bytes(22, (r.vmaj, r.vmin), 0, r.seq + 50, &hs_bytes(11, body.len() as u32, m.seq + 1, 0, &body))]
+        }
         Act::SeqMinus1 => {
             // renumber the message (an on-path party closing the gap after dropping its predecessor)
             let r = &parse_records(dg)[0]; let m = &parse_hs(&r.body)[0];
@@ -136,7 +156,10 @@ fn apply(act: &Act, dg: &[u8], atk: &Attacker, randoms: &(Vec<u8>, Vec<u8>), occ
         Act::PreInject(ct) => {
             // a clear-text record of the given content type arrives just before this datagram (from anybody):
             // application data, close_notify, ChangeCipherSpec, or a Finished with an arbitrary verify_data
-            let payload: Vec<u8> = match ct { 21 => vec![1, 0], 20 => vec![1], 22 => hs_bytes(20, 12, 9, 0, &[0x5A; 12]), _ => b"clear-text application data".to_vec() };
+            // the clear-text Finished carries exactly the message_seq the target expects next at this point of the flight
+            let next_seq: u16 = match kind(dg) { 2 => 0, 11 => 1, 12 => 2, 14 => 3, 16 => 1, _ => if parse_records(dg).first().map(|r| r.epoch == 0 && r.ctype == 20 || r.epoch > 0).unwrap_or(false) { 99 } else { 9 } };
+            let next_seq = if next_seq == 99 { if from_client_hint(dg) { 2 } else { 4 } } else { next_seq };
+            let payload: Vec<u8> = match ct { 21 => vec![1, 0], 20 => vec![1], 22 => hs_bytes(20, 12, next_seq, 0, &[0x5A; 12]), _ => b"clear-text application data".to_vec() };
             vec![record_bytes(*ct, (254, 253), 0, 99, &payload), dg.to_vec()]
         }
         Act::RefragTailLost(a) | Act::RefragEvery3(a) => {
@@ -153,6 +176,18 @@ fn apply(act: &Act, dg: &[u8], atk: &Attacker, randoms: &(Vec<u8>, Vec<u8>), occ
                 vec![piece(0, cut, 0), piece(cut, c2, 1), piece(c2, n, 2)] };
             if occ == 0 { frags.pop(); }
             frags
+        }
+        Act::RefragOverlap(a) => {
+            // every (re)transmission arrives as two fragments whose ranges overlap ([0,hi) and [lo,n), lo < hi):
+            // legal (RFC 6347 section 4.2.3 asks receivers to handle overlapping ranges)
+            let r = &parse_records(dg)[0]; let m = &parse_hs(&r.body)[0];
+            let n = m.body.len();
+            if n < 6 { return vec![dg.to_vec()]; }
+            let lo = ((*a as usize + 7 * occ) % (n - 4)).max(1);
+            let hi = (lo + 1 + (n - lo) / 2).min(n - 1);
+            let piece = |lo: usize, hi: usize, k: u64| record_bytes(22, (r.vmaj, r.vmin), 0, r.seq + 100 * (k + 1),
+                &hs_bytes(m.typ, n as u32, m.seq, lo as u32, &m.body[lo..hi]));
+            vec![piece(0, hi, 0), piece(lo, n, 1)]
         }
         Act::FragDupMid(a) | Act::FragReorder(a) => {
             // three fragments [0,a) [a,2a) [2a,..): the middle one twice, or the last two swapped
@@ -201,6 +236,8 @@ pub async fn run_script_ticks(sc: &Script, max_ticks: u32) -> Option<Outcome> {
         c.private_key = scert.private_key.clone(); c
     } else { scert };
     let mut s = Recd::new(false, scert, exp_s.clone()).await;
+    // scripts in which an endpoint must refuse: watch what its state channel shows meanwhile
+    let spies = if sc.ce == 'b' || sc.rules.iter().any(|r| matches!(r.act, Act::ForgeFinishedBad | Act::InsertCert | Act::Impostor | Act::ImpostorChain | Act::CertOther | Act::CertOtherResign | Act::FlipSig | Act::FlipKey)) { Some(c.ep.spy()) } else { None };
     let (c_src, s_src) = (c.ep.sink_addr, s.ep.sink_addr);
     let mut q_cs: VecDeque<Vec<u8>> = VecDeque::new();
     let mut q_sc: VecDeque<Vec<u8>> = VecDeque::new();
@@ -208,10 +245,12 @@ pub async fn run_script_ticks(sc: &Script, max_ticks: u32) -> Option<Outcome> {
     for d in c.start().await { q_cs.push_back(d); }
     let mut used = vec![false; sc.rules.len()];
     let mut occ = vec![0usize; sc.rules.len()];
+    let (mut forged, mut seq_shift, mut inserted_cert) = (false, 0u16, false);
     let mut held: (Option<Vec<u8>>, Option<Vec<u8>>) = (None, None);
     let mut randoms = (vec![], vec![]);
     let mut guard = 0;
     let mut ticks = 0;
+    let (mut trailing_done, mut late_retransmit) = (false, false);
     loop {
         if q_cs.is_empty() && q_sc.is_empty() {
             // a held-back (swapped) datagram whose successor never came is released now
@@ -224,6 +263,16 @@ pub async fn run_script_ticks(sc: &Script, max_ticks: u32) -> Option<Outcome> {
                 for x in s.tick().await { q_sc.push_back(x); }
                 continue;
             }
+            // one more timer round after both are Connected: nobody may retransmit any more
+            if max_ticks > 0 && !trailing_done && c.ep.letter() == 'C' && s.ep.letter() == 'C' {
+                trailing_done = true;
+                if c.unexpected_tick_possible() || s.unexpected_tick_possible() { return None; }
+                let (a, b) = (c.tick().await, s.tick().await);
+                if !a.is_empty() || !b.is_empty() { late_retransmit = true; }
+                for x in a { q_cs.push_back(x); }
+                for x in b { q_sc.push_back(x); }
+                continue;
+            }
             break;
         }
         if guard >= 400 { break; }
@@ -233,16 +282,38 @@ pub async fn run_script_ticks(sc: &Script, max_ticks: u32) -> Option<Outcome> {
         let k = kind(&dg);
         if k == 1 && randoms.0.is_empty() { randoms.0 = parse_hs(&parse_records(&dg)[0].body)[0].body[2..34].to_vec(); }
         if k == 2 && randoms.1.is_empty() { randoms.1 = parse_hs(&parse_records(&dg)[0].body)[0].body[2..34].to_vec(); }
+        DIR_HINT.with(|d| d.set(from_client));
         let mut outs = vec![dg.clone()];
         let mut swap = false;
         for (i, r) in sc.rules.iter().enumerate() {
             if !used[i] && r.from_client == from_client && r.typ == k {
-                let persistent = matches!(r.act, Act::RefragTailLost(_) | Act::RefragEvery3(_));
+                let persistent = matches!(r.act, Act::RefragTailLost(_) | Act::RefragEvery3(_) | Act::RefragOverlap(_));
                 if !persistent { used[i] = true; }
                 if r.act == Act::Swap { swap = true; } else { outs = outs.iter().flat_map(|d| apply(&r.act, d, &atk, &randoms, occ[i])).collect(); }
                 occ[i] += 1;
             }
         }
+        // a Finished sealed under the genuine server write key (the harness has the client's key log) but with a
+        // wrong verify_data: it authenticates as a record, and reaches the client's verify_data comparison
+        if !from_client && k == 20 && sc.rules.iter().any(|r| r.act == Act::ForgeFinishedBad) && !forged {
+            if let Some(keys) = c.keys.last() {
+                forged = true;
+                let (wk, wiv) = write_dir(keys, false);
+                let fin = hs_bytes(20, 12, 4, 0, &[0x5A; 12]);
+                outs = vec![record_bytes(22, (254, 253), 1, 0, &seal_body(&wk, &wiv, 1, 0, 22, (254, 253), &fin))];
+            }
+        }
+        // after an inserted message the proxy renumbers the remaining clear-text messages of the server's flight
+        if !from_client && seq_shift > 0 && (k == 12 || k == 14) {
+            outs = outs.iter().map(|d| {
+                let rs = parse_records(d);
+                match rs.first() {
+                    Some(r) if r.ctype == 22 && r.epoch == 0 && rs.len() == 1 => match parse_hs(&r.body).first() {
+                        Some(m) => record_bytes(22, (r.vmaj, r.vmin), r.epoch, r.seq, &hs_bytes(m.typ, m.total, m.seq + seq_shift, m.off, &m.body)),
+                        None => d.clone() },
+                    _ => d.clone() } }).collect();
+        }
+        if !from_client && k == 11 && sc.rules.iter().any(|r| r.act == Act::InsertCert) { seq_shift = 1; inserted_cert = true; }
         let slot = if from_client { &mut held.0 } else { &mut held.1 };
         if swap { *slot = Some(outs.remove(0)); continue; }
         if let Some(h) = slot.take() { outs.push(h); }
@@ -254,6 +325,7 @@ pub async fn run_script_ticks(sc: &Script, max_ticks: u32) -> Option<Outcome> {
     if c.unexpected_tick_possible() || s.unexpected_tick_possible() { return None; }
     // ---- after the handshake attempt: application data and exporter
     let mut fails = vec![];
+    if late_retransmit { fails.push(("conv:retransmission-after-both-connected".to_string(), sc.text())); }
     let mut tags = vec![format!("final:{}{}", c.ep.letter(), s.ep.letter()), format!("ticks_used:{ticks}")];
     let text = sc.text();
     for from_client in [true, false] {
@@ -273,9 +345,14 @@ pub async fn run_script_ticks(sc: &Script, max_ticks: u32) -> Option<Outcome> {
         if !connected && export.is_ok() { fails.push(("noconn:keying-material-exported".into(), text.clone())); }
         if let Some(e) = &x.expected {
             if connected {
-                if !x.shown_cert_fps.contains(e) {
-                    fails.push((if role == "server" { "role:server:no-client-certificate".to_string() } else { "role:client:connected-without-matching-certificate".to_string() }, text.clone()));
-                } else if !x.sig_ok_under.contains(e) {
+                if role == "server" && x.shown_cert_fps.is_empty() {
+                    // the known gap, and only it: the server connected although *no* Certificate message was ever
+                    // delivered to it (it never asks for one).  Any other way of connecting without the pinned
+                    // certificate (a Certificate was delivered but did not match, …) has its own signature below.
+                    fails.push(("role:server:connected-though-no-certificate-message-was-ever-requested-or-received".to_string(), text.clone()));
+                } else if !x.shown_cert_fps.contains(e) {
+                    fails.push((format!("role:{role}:connected-without-matching-certificate"), text.clone()));
+                } else if !x.sig_ok_under.contains(e) && role == "client" {
                     fails.push((format!("role:{role}:connected-without-proof-of-possession"), text.clone()));
                 }
             }
@@ -283,6 +360,17 @@ pub async fn run_script_ticks(sc: &Script, max_ticks: u32) -> Option<Outcome> {
         if x.outs.iter().any(|o| { let f: Vec<&str> = o.split(',').collect(); f.len() == 4 && f[0] != "C" && f[2] != "-" }) {
             fails.push(("noconn:app-data-accepted-while-not-connected".into(), text.clone()));
         }
+    }
+    for v in c.clear_violations.iter().chain(s.clear_violations.iter()) { fails.push((v.clone(), text.clone())); }
+    // the watch channel (what SCTP / SRTP wait on) must show what get_state() shows after every step
+    for x in [&c, &s] { for o in &x.outs { if let Some(st) = o.split(',').next() { if st.contains('!') {
+        fails.push((format!("state:watch-channel-differs-from-state:{st}"), text.clone())); } } } }
+    if let Some(spy) = spies { if spy.saw_connected() && !matches!(c.ep.letter(), 'C' | 'X') {
+        fails.push((format!("state:watch-channel-showed-connected-but-handshake-ended-{}", c.ep.letter()), text.clone())); } }
+    if forged && c.ep.letter() != 'F' { fails.push((format!("role:client:wrong-verify-data-not-rejected:ended-{}", c.ep.letter()), text.clone())); }
+    // (in a multi-fault script the inserted message may never be reached in sequence — then Handshaking is a legitimate end)
+    if inserted_cert && c.expected.is_some() && (c.ep.letter() == 'C' || (sc.rules.len() == 1 && c.ep.letter() != 'F')) {
+        fails.push((format!("role:client:non-matching-certificate-in-sequence-not-rejected:ended-{}", c.ep.letter()), text.clone()));
     }
     if let (Some(kc), Some(ks)) = (c.ep.keys(), s.ep.keys()) {
         if kc != ks { fails.push(("conv:both-connected-different-keys".into(), text.clone())); }
@@ -316,6 +404,11 @@ pub fn scripts(thorough: bool, rng: &mut Rng) -> Vec<Script> {
         vec![r(true, 20, Act::Dup)], vec![r(false, 20, Act::Dup)],
         vec![r(false, 11, Act::Fragment(100))], vec![r(false, 12, Act::Fragment(30))],
         vec![r(false, 0, Act::Impostor)], vec![r(false, 0, Act::ImpostorChain)], vec![r(false, 0, Act::ExtraCert)],
+        // the client's own verify_data comparison: a Finished that authenticates as a record but carries a wrong value
+        vec![r(false, 20, Act::ForgeFinishedBad)],
+        // a second, in-sequence Certificate message (attacker's) after the genuine one, alone and with the key
+        // exchange re-signed by the attacker
+        vec![r(false, 11, Act::InsertCert)], vec![r(false, 11, Act::InsertCert), r(false, 12, Act::Resign)],
         // clear-text records injected at every stage of the handshake (before keys, between keys and Connected)
         vec![r(false, 2, Act::PreInject(23))], vec![r(false, 14, Act::PreInject(23))], vec![r(false, 200, Act::PreInject(23))], vec![r(false, 20, Act::PreInject(23))],
         vec![r(true, 16, Act::PreInject(23))], vec![r(true, 200, Act::PreInject(23))], vec![r(true, 20, Act::PreInject(23))],
@@ -337,6 +430,9 @@ pub fn scripts(thorough: bool, rng: &mut Rng) -> Vec<Script> {
         for x in rng.pick(&tamper).clone() { if !rules.iter().any(|y| y.from_client == x.from_client && y.typ == x.typ) { rules.push(x); } }
         v.push(Script { ce: *rng.pick(&['n', 'o', 'b']), se: *rng.pick(&['n', 'o', 'b']), rules });
     }
+    // the one script that makes the client's Finished check fail, several more times: the watch-channel spy
+    // catches a transiently published state only with some probability per run
+    for _ in 0..(if thorough { 40 } else { 10 }) { v.push(Script { ce: 'o', se: 'n', rules: vec![r(false, 20, Act::ForgeFinishedBad)] }); }
     v
 }
 
@@ -420,6 +516,8 @@ pub fn run(args: &Args) {
             println!("impl: {:?}", rustrtc::sdp::SdpFingerprint::parse(&format!("sha-256 {t}")));
             return;
         }
+        if case.trim() == "deadline" { super::c03::deadline::replay(); return; }
+        if case.starts_with("pc ") { super::c03::pcfp::replay(case); return; }
         let sc = Script::parse(case);
         match rt.block_on(run_script(&sc)) {
             Some(o) => { for (i, l) in o.lines { println!("ops: {i}\nimpl: {l}"); } for (s, d) in o.fails { println!("ORACLE-FAIL {s} {d}"); } }
@@ -428,6 +526,8 @@ pub fn run(args: &Args) {
         return;
     }
     let mut run = Run::new("c02", &args.out);
+    // run loops left alone until their handshake deadline (30 s of real time), concurrently with everything below
+    let deadline = super::c03::deadline::spawn_deadline_sessions();
     let mut rng = Rng::new(args.seed);
     for sc in scripts(args.tier_thorough, &mut rng) {
         let mut done = false;
@@ -446,5 +546,8 @@ pub fn run(args: &Args) {
     }
     fp_cases(&mut run, &mut rng, if args.tier_thorough { 50000 } else { 600 });
     sdpfp_cases(&mut run, &mut rng, if args.tier_thorough { 20000 } else { 500 });
+    drop(rt);
+    super::c03::pcfp::run_cases(&mut run, if args.tier_thorough { 5 } else { 1 });
+    super::c03::deadline::record(&mut run, deadline);
     run.finish();
 }
